@@ -44,6 +44,14 @@ theorem exactly_once (s0 : CState) (cyc : List (Bool × Env)) (i j : Nat) (hij :
       CompleteRefresh (stateBefore s0 cyc k) env ts ∧ t ∈ ts :=
   Proofs.Cluster.exactly_once s0 cyc i j hij t oi oj hi hj hti htj
 
+/-- A metadata tick of the main loop makes the NEXT offset tick re-read the metadata (and so detect
+    deletions), whatever the loop did before and however many reaper ticks come in between. -/
+theorem metadata_tick_forces_refresh (name : String) (s : CState) (before reaps after : List Tick) (env : Env)
+    (h : ∀ t ∈ reaps, ∃ kg sg, t = Tick.reaper kg sg) :
+    ∃ o, (cycleOuts (runLoop name s (before ++ Tick.metadata :: reaps ++ Tick.offset env :: after)))[
+            (cycleOuts (runLoop name s before)).length]? = some o ∧ o.refreshed = true :=
+  Proofs.Cluster.metadata_tick_forces_refresh name s before reaps after env h
+
 /-! ### Non-vacuity: present, absent (deleted once), still absent (not again), failing refresh -/
 
 private def envWith (ts : Option (List String)) (pfail : Bool) : Env :=
@@ -55,5 +63,10 @@ example : (runCycles CState.init
     [(true, envWith (some ["a", "b"]) false), (true, envWith (some ["a"]) true),
      (true, envWith (some ["a"]) false), (true, envWith (some ["a"]) false),
      (true, envWith none false)]).map (·.deletes) = [[], [], ["b"], [], []] := by decide
+
+/-- through the loop: topic b disappears; it is reported at the first offset tick after the metadata tick -/
+example : (cycleOuts (runLoop "c0" CState.init
+    [.offset (envWith (some ["a", "b"]) false), .offset (envWith (some ["a"]) false), .metadata,
+     .reaper (some []) (some []), .offset (envWith (some ["a"]) false)])).map (·.deletes) = [[], [], ["b"]] := by decide
 
 end Burrow.Props.C12
